@@ -81,13 +81,18 @@ Proof.
   - assert (Hw : v = w).
     { destruct o; destruct H as [H|[H|H]]; try discriminate; injection H; auto. }
     subst. eapply hop_item; eauto.
-  - destruct k as [a|z].
+  - destruct k as [a|z|c a].
     + destruct (py_getattr o a) as [v|] eqn:Ea.
       * assert (Hb : is_handout (attr_branch tb o a v) w).
         { destruct o; try exact H; destruct H as [H|[H|H]]; discriminate. }
         exact (attr_branch_hop tb o a v w Ea Hb).
       * destruct o; destruct H as [H|[H|H]]; discriminate.
     + destruct o; destruct H as [H|[H|H]]; discriminate.
+    + destruct (py_getattr o a) as [v|] eqn:Ea.
+      * assert (Hb : is_handout (attr_branch tb o a v) w).
+        { destruct o; try exact H; destruct H as [H|[H|H]]; discriminate. }
+        exact (attr_branch_hop tb o a v w Ea Hb).
+      * destruct o; destruct H as [H|[H|H]]; discriminate.
 Qed.
 
 (* the attribute VALUE (or its format wrapper) is handed out only for safe names *)
@@ -109,6 +114,21 @@ Lemma getitem_value_safe : forall tb o a v,
 Proof.
   intros tb o a v H. unfold sandbox_getitem in H.
   destruct (py_getitem o (KStr a)) as [x|] eqn:Ei.
+  - destruct o; destruct H as [H|H]; discriminate.
+  - destruct (py_getattr o a) as [x|] eqn:Ea.
+    + assert (Hb : attr_branch tb o a x = RValue v \/ attr_branch tb o a x = RFormat v).
+      { destruct o; try exact H; destruct H as [H|H]; discriminate. }
+      destruct Hb as [Hb|Hb]; [apply attr_branch_value in Hb|apply attr_branch_format in Hb]; tauto.
+    + destruct o; destruct H as [H|H]; discriminate.
+Qed.
+
+(* a str-subclass key: the attribute is fetched under str(key) and that is the name checked *)
+Lemma getitem_subkey_value_safe : forall tb o c a v,
+  sandbox_getitem tb o (KSub c a) = RValue v \/ sandbox_getitem tb o (KSub c a) = RFormat v ->
+  is_safe_attribute tb (kind_of o) a = true.
+Proof.
+  intros tb o c a v H. unfold sandbox_getitem in H.
+  destruct (py_getitem o (KSub c a)) as [x|] eqn:Ei.
   - destruct o; destruct H as [H|H]; discriminate.
   - destruct (py_getattr o a) as [x|] eqn:Ea.
     + assert (Hb : attr_branch tb o a x = RValue v \/ attr_branch tb o a x = RFormat v).
